@@ -241,7 +241,7 @@ func (w *world) start() error {
 	}
 	if w.validate {
 		opts = append(opts,
-			pipeline.WithEta0Provider(eta0Provider),
+			pipeline.WithEta0Provider(w.eta0),
 			pipeline.WithSlotsPerKesPeriod(slotsPerKesPeriod),
 			pipeline.WithVerifyConfig(verifyCfg()))
 	}
@@ -283,6 +283,22 @@ func (w *world) start() error {
 		}
 	}()
 	return nil
+}
+
+// eta0 is the nonce provider given to the pipeline. It runs on the validate
+// worker that holds the block (the worker's goroutine id was recorded by the
+// hook right before Process), so per-block provider failures can be injected.
+func (w *world) eta0(slot uint64) (string, error) {
+	g := gid()
+	w.mu.Lock()
+	h, ok := w.held[g]
+	w.mu.Unlock()
+	if ok && h.stage == sValidate {
+		if pl := w.plans[h.id]; pl != nil && pl.In.ProvErr != "" {
+			return "", providerError(pl.In.ProvErr)
+		}
+	}
+	return eta0Provider(slot)
 }
 
 // hook runs on a decode / validate worker goroutine right before Process.
